@@ -2,6 +2,7 @@ package props
 
 import (
 	"fmt"
+	"math"
 	"os"
 	"os/exec"
 	"path/filepath"
@@ -383,6 +384,108 @@ func runC15(c *core.Ctx) {
 			c15One(c, s, fmt.Sprintf("number site schema, %s = %v", site, x), "addtypes", attrs)
 		}
 	}
+	// ---- B3: the same sites typed Float (32 bits wide in ggql) with numbers a float32 holds exactly, up to its extremes: the
+	// printer writes the shortest text that reads back as the same float32, and that text must be a Float for the reader too
+	f32s := []interface{}{0.5, -1.25, 1048576.5, float64(math.MaxFloat32), -float64(math.MaxFloat32), float64(math.SmallestNonzeroFloat32), 1.1754943508222875e-38, 16777216.0}
+	for _, site := range c15NumSites {
+		for _, x := range f32s {
+			if !c.Owns(fmt.Sprintf("B3|%s|%v", site, x)) {
+				continue
+			}
+			c.Nontrivial()
+			c.Eval()
+			s := c15NumSchemaOf("Float", site, x)
+			// (the read-back comparison of c15One reads a float32 through its shortest text, which is not the float64 the
+			// reference holds at the extremes: here the statement is checked as it is written - what loaded is printed, the
+			// print is accepted by a fresh root, and prints again as the same text)
+			attrs := map[string]string{"part": "B3", "site": site, "numclass": "float32-exact"}
+			text := s.SDL()
+			var p1, p2 string
+			var err1, err2 error
+			pi := core.Safe(func() {
+				r1 := ggql.NewRoot(c16Dummy{})
+				if err1 = r1.ParseString(text); err1 != nil {
+					return
+				}
+				p1 = r1.SDL(false, true)
+				r2 := ggql.NewRoot(c16Dummy{})
+				if err2 = r2.ParseString(p1); err2 != nil {
+					return
+				}
+				p2 = r2.SDL(false, true)
+			})
+			detail := map[string]interface{}{"site": site, "number": fmt.Sprint(x), "sdl": text, "printed": p1, "printed_again": p2}
+			switch {
+			case pi != nil:
+				detail["panic"] = pi.Value
+				c.Violation("panic", map[string]string{"site": pi.Site, "class": pi.Class, "part": "B3"}, detail)
+			case err1 != nil:
+				panic(core.EngineError{Msg: "C15 B3 schema refused: " + err1.Error() + "\n" + text})
+			case err2 != nil:
+				detail["diff"] = "the printed schema is refused: " + err2.Error()
+				attrs["stage"] = "reload"
+				c.Outcome("printed-sdl-refused")
+				c.Violation("load-differs", attrs, detail)
+			case p1 != p2:
+				detail["diff"] = firstLineDiff(p1, p2)
+				attrs["stage"] = "second-print"
+				c.Outcome("not-a-fixed-point")
+				c.Violation("load-differs", attrs, detail)
+			default:
+				c.Outcome("B3-agree")
+			}
+		}
+	}
+	// ---- B4: defaults inside defaults: an input field whose default is an object (or a list of objects) of another input type
+	// that has defaulted fields of its own, reached through a directive use / a directive argument default (the places where the
+	// loader keeps coerced values): print, reload, print again
+	for ni, text := range []string{
+		"input In2 { a: Int b: Int = 2 }\ninput Pt { x: Int y: Int = 5 inner: In2 = {a: 1} }\ndirective @d(p: Pt) on OBJECT\ntype A @d(p: {x: 1}) { i: Int }\ntype Query { a: A }\n",
+		"input In2 { a: Int b: Int = 2 }\ninput Pt { x: Int inner: In2 = {a: 1} }\ndirective @d(p: Pt = {x: 1}) on OBJECT\ntype Query @d { i: Int }\n",
+		"input In2 { a: Int b: Int = 2 }\ninput Pt { x: Int ins: [In2] = [{a: 1}, {b: 3}] }\ndirective @d(p: Pt) on OBJECT\ntype Query @d(p: {x: 1}) { i: Int }\n",
+		"input In3 { c: String = \"c\" }\ninput In2 { a: Int deep: In3 = {} }\ninput Pt { x: Int inner: In2 = {a: 1} }\ndirective @d(p: [Pt]) on OBJECT\ntype Query @d(p: [{x: 1}, {inner: {a: 2}}]) { i: Int }\n",
+	} {
+		if !c.Owns(fmt.Sprintf("B4|%d", ni)) {
+			continue
+		}
+		c.Nontrivial()
+		c.Eval()
+		c.R.Distinct++
+		var p1, p2 string
+		var err1, err2 error
+		pi := core.Safe(func() {
+			r1 := ggql.NewRoot(c16Dummy{})
+			if err1 = r1.ParseString(text); err1 != nil {
+				return
+			}
+			p1 = r1.SDL(false, true)
+			r2 := ggql.NewRoot(c16Dummy{})
+			if err2 = r2.ParseString(p1); err2 != nil {
+				return
+			}
+			p2 = r2.SDL(false, true)
+		})
+		detail := map[string]interface{}{"sdl": text, "printed": p1, "printed_again": p2}
+		attrs := map[string]string{"part": "B4", "site": "default-inside-default"}
+		switch {
+		case pi != nil:
+			detail["panic"] = pi.Value
+			c.Violation("panic", map[string]string{"site": pi.Site, "class": pi.Class, "part": "B4"}, detail)
+		case err1 != nil:
+			panic(core.EngineError{Msg: "C15 B4 schema refused: " + err1.Error() + "\n" + text})
+		case err2 != nil:
+			detail["diff"] = "the printed schema is refused: " + err2.Error()
+			attrs["stage"] = "reload"
+			c.Violation("load-differs", attrs, detail)
+		case p1 != p2:
+			detail["diff"] = firstLineDiff(p1, p2)
+			attrs["stage"] = "second-print"
+			c.Outcome("not-a-fixed-point")
+			c.Violation("load-differs", attrs, detail)
+		default:
+			c.Outcome("B4-agree")
+		}
+	}
 	// ---- D: schemas that arrive in several loads and never declare a schema block: what 'extend schema' said about the root
 	// operation types, beside unrelated types that happen to carry the conventional names and arrive in another load. Every
 	// sequence of <= 4 different units; after every accepted load the printed root is reloaded and compared.
@@ -473,7 +576,7 @@ func runC15(c *core.Ctx) {
 	if c.Shard == 0 {
 		c15Ggqlgen(c, bases)
 	}
-	c.R.Bound = fmt.Sprintf("A: %d schemas; B: %d sites x %d strings (<= %d units over %d); B2: 7 constant sites x (24 numbers + explicit null); whole-root and per-type (reversed) printed forms; C: ggqlgen on the bases (thorough); D: every sequence of <= 4 (thorough: all 6) of 6 later loads around an undeclared schema", len(subjects), len(c15Sites()), len(strs), maxLen, len(c15Units))
+	c.R.Bound = fmt.Sprintf("A: %d schemas; B: %d sites x %d strings (<= %d units over %d); B2: 7 constant sites x (24 numbers + explicit null); B3: the same sites typed Float x 8 numbers a float32 holds exactly; B4: 4 schemas with defaults inside defaults; whole-root and per-type (reversed) printed forms; C: ggqlgen on the bases (thorough); D: every sequence of <= 4 (thorough: all 6) of 6 later loads around an undeclared schema", len(subjects), len(c15Sites()), len(strs), maxLen, len(c15Units))
 	if !completed {
 		c.Cap("deadline reached")
 	}
@@ -655,7 +758,10 @@ func verifDirProps() string {
 var c15NumSites = []string{"argument-default", "input-field-default", "directive-argument-default", "directive-use-on-type", "directive-use-on-field", "list-default", "object-default"}
 
 // c15NumSchema places the number x at the named constant site (every position is of type Float64).
-func c15NumSchema(site string, x interface{}) *sgen.Schema {
+func c15NumSchema(site string, x interface{}) *sgen.Schema { return c15NumSchemaOf("Float64", site, x) }
+
+// c15NumSchemaOf: the same with every position of the scalar type tn (Float64, or the 32-bit Float).
+func c15NumSchemaOf(tn, site string, x interface{}) *sgen.Schema {
 	k := func(s string, def interface{}) interface{} {
 		if site == s {
 			return x
@@ -665,14 +771,14 @@ func c15NumSchema(site string, x interface{}) *sgen.Schema {
 	N, L := sgen.N, sgen.L
 	return &sgen.Schema{Defs: []*sgen.Def{
 		{Kind: sgen.KDirective, Name: "dd", Locations: []string{"OBJECT", "FIELD_DEFINITION"},
-			Args: []*sgen.Arg{{Name: "x", Type: N("Float64"), HasDef: true, Default: k("directive-argument-default", 0.25)}}},
+			Args: []*sgen.Arg{{Name: "x", Type: N(tn), HasDef: true, Default: k("directive-argument-default", 0.25)}}},
 		{Kind: sgen.KObject, Name: "Query", Dirs: []sgen.DirUse{{Name: "dd", Args: []sgen.KV{{Name: "x", Value: k("directive-use-on-type", 0.75)}}}},
 			Fields: []*sgen.Field{
 				{Name: "f", Type: N("Int"), Dirs: []sgen.DirUse{{Name: "dd", Args: []sgen.KV{{Name: "x", Value: k("directive-use-on-field", 1.75)}}}},
-					Args: []*sgen.Arg{{Name: "a", Type: N("Float64"), HasDef: true, Default: k("argument-default", 2.5)},
-						{Name: "l", Type: L(N("Float64")), HasDef: true, Default: []interface{}{3.5, k("list-default", 4.5)}},
+					Args: []*sgen.Arg{{Name: "a", Type: N(tn), HasDef: true, Default: k("argument-default", 2.5)},
+						{Name: "l", Type: L(N(tn)), HasDef: true, Default: []interface{}{3.5, k("list-default", 4.5)}},
 						{Name: "o", Type: N("In"), HasDef: true, Default: map[string]interface{}{"s": k("object-default", 5.5)}}}}}},
-		{Kind: sgen.KInput, Name: "In", Fields: []*sgen.Field{{Name: "s", Type: N("Float64"), HasDef: true, Default: k("input-field-default", 6.5)}}},
+		{Kind: sgen.KInput, Name: "In", Fields: []*sgen.Field{{Name: "s", Type: N(tn), HasDef: true, Default: k("input-field-default", 6.5)}}},
 	}}
 }
 
